@@ -1,9 +1,10 @@
 From Coq Require Extraction ExtrOcamlBasic.
-From OxiVerif Require Import Base.Conv IO.Circuit IO.Aiger.
+From OxiVerif Require Import Base.Conv IO.Circuit IO.Aiger IO.AigerParse.
 Extraction Language OCaml.
 Extraction "model.ml" conv_anchor
   Circuit.simplify Circuit.eval Circuit.apply_gate_map
   Circuit.nf_b Circuit.map_consistent_b Circuit.equiv_b Circuit.defined_b Circuit.observed
   Circuit.should_err_b Circuit.err_ok_b Circuit.closed_b Circuit.reach
   Circuit.ok_answer_b Circuit.err_answer_b Circuit.lit_eqb
-  Aiger.decode7 Aiger.encode7 Aiger.and_gate_bin Aiger.decode_gate Aiger.encode_gate.
+  Aiger.decode7 Aiger.encode7 Aiger.and_gate_bin Aiger.decode_gate Aiger.encode_gate
+  AigerParse.parse_aiger AigerParse.print_aag AigerParse.print_aig AigerParse.wf_b AigerParse.default_map.
